@@ -63,6 +63,17 @@ pub fn check_short(en: &EnumEntry, bytes: &[u8]) -> CheckResult {
 }
 
 pub fn replay(check: &str, i: &Value) -> Option<CheckResult> {
+    if check == "transport-interrupt" {
+        let ens = enums();
+        let en = ens.iter().find(|e| Some(e.name) == i.get("enum").and_then(|x| x.as_str()))?;
+        let stream = unhex(i.get("stream")?.as_str()?);
+        let n = i.get("first_len")?.as_u64()? as usize;
+        let at = i.get("interrupt_at")?.as_u64()? as usize;
+        let (wa, wb) = ((en.parse)(&stream[..n]).ok()?, (en.parse)(&stream[n..]).ok()?);
+        let got = guard(|| (en.read)(stream.clone(), 2, Some(at)));
+        let ok = matches!(&got, Ok(r) if r.len() == 2 && (r[0].is_err() || (r[0].as_ref().ok() == Some(&wa) && (r[1].is_err() || r[1].as_ref().ok() == Some(&wb)))));
+        return Some(if ok { Ok(()) } else { Err(Violation::new("transport-interrupt", format!("C15 enum={} kind=packet-invented-after-interrupted-read", en.name), format!("reads gave {:?}", got), i.clone())) });
+    }
     if check == "transport" {
         let ens = enums();
         let en = ens.iter().find(|e| Some(e.name) == i.get("enum").and_then(|x| x.as_str()))?;
@@ -70,7 +81,7 @@ pub fn replay(check: &str, i: &Value) -> Option<CheckResult> {
         // expectation recomputed: first packet rejected, second parsed on its own, then end of stream
         let n = 5 + u16::from_le_bytes([stream[3], stream[4]]) as usize;
         let want = (en.parse)(&stream[n..]).ok()?;
-        let got = guard(|| (en.read)(stream.clone(), 3));
+        let got = guard(|| (en.read)(stream.clone(), 3, None));
         let ok = matches!(&got, Ok(r) if r.len() == 3 && r[0].is_err() && r[1].as_ref().ok() == Some(&want) && r[2].is_err());
         return Some(if ok { Ok(()) } else { Err(Violation::new("transport", format!("C15 enum={} kind=rejected-packet-body-read-as-packets", en.name), format!("three reads gave {:?}; expected [Err, Ok({}), Err]", got, clip(&want, 120)), i.clone())) });
     }
@@ -237,6 +248,26 @@ pub fn run(tier: Tier) -> i32 {
                 }
             }
         }
+        // two owned packets, one read interrupted (ErrorKind::Interrupted) at every offset of the first: the reader may report
+        // the error or carry on correctly; what it returns as a packet must be a packet that was sent
+        for (a, (want_a, img_a)) in images.iter().enumerate().take(6) {
+            let (want_b, img_b) = &images[(a + 1) % images.len()];
+            let mut stream = img_a.clone();
+            stream.extend(img_b);
+            for at in 0..img_a.len().min(40) {
+                let got = guard(|| (en.read)(stream.clone(), 2, Some(at)));
+                st.case(true, fnv(&stream) ^ (at as u64) << 40 ^ fnv_str(en.name));
+                st.class("transport:one-read-interrupted");
+                let ok = match &got {
+                    Ok(r) => r.len() == 2 && (r[0].is_err() || (r[0].as_ref().ok() == Some(want_a) && (r[1].is_err() || r[1].as_ref().ok() == Some(want_b)))),
+                    Err(_) => false,
+                };
+                if !ok {
+                    let input = json!({"enum": en.name, "stream": hex(&stream), "interrupt_at": at, "first_len": img_a.len()});
+                    ctx.record(Err(Violation::new("transport-interrupt", format!("C15 enum={} kind=packet-invented-after-interrupted-read", en.name), format!("stream {} (two packets), the read at offset {at} fails once with Interrupted\n  reads gave {:?}\n  expected an error, or the two packets {} / {}", clip(&hex(&stream), 120), got.as_ref().map(|r| r.iter().map(|x| x.as_ref().map(|s| clip(s, 80)).map_err(|e| clip(e, 60))).collect::<Vec<_>>()), clip(want_a, 80), clip(want_b, 80)), input)), st);
+                }
+            }
+        }
         for (a, (_, img_a)) in images.iter().enumerate() {
             for (want, real) in images.iter().skip(a + 1).chain(images.iter().take(a)).take(3) {
                 for pad in [255usize, 300, 1000] {
@@ -246,7 +277,7 @@ pub fn run(tier: Tier) -> i32 {
                     stream.extend(&body);
                     stream.extend(real);
                     let input = json!({"enum": en.name, "stream": hex(&stream)});
-                    let got = guard(|| (en.read)(stream.clone(), 3));
+                    let got = guard(|| (en.read)(stream.clone(), 3, None));
                     st.case(true, fnv(&stream) ^ fnv_str(en.name));
                     st.class("transport:foreign-extended-packet-then-owned-packet");
                     let ok = match &got {
@@ -264,7 +295,7 @@ pub fn run(tier: Tier) -> i32 {
     stats.exhaustive_parts = vec!["17 reply parsers x all 65 536 (class, instr) pairs, each with every prepared body".into()];
     ctx.finish(
         stats,
-        "enumeration: every reply enum x every (class, instr) pair x bodies {empty, canonical bodies of each variant's packet type, random}, owned pairs also with further bytes behind the packet in the same buffer (a following packet, field-like bytes, random); plus inputs shorter than two bytes; plus, through PacketTransport::read_packet::<enum>, a foreign extended-length packet whose data block begins with the image of an owned packet, followed by an owned packet (error, that packet, end of stream); plus, through the real sequences, every form of the terminal's acknowledgement (empty / with a reply-like data block / extended length) in front of each reply of the reply set (trace oracle of C05). Oracle from an independent enum -> control field table: foreign pair => Err; owned pair => identical to the variant's packet type decoding the same bytes. non-trivial = pair owned by the enum or sharing class or instr with an owned pair; distinct by (enum, pair, body) by construction",
+        "enumeration: every reply enum x every (class, instr) pair x bodies {empty, canonical bodies of each variant's packet type, random}, owned pairs also with further bytes behind the packet in the same buffer (a following packet, field-like bytes, random); plus inputs shorter than two bytes; plus, through PacketTransport::read_packet::<enum>, a foreign extended-length packet whose data block begins with the image of an owned packet, followed by an owned packet (error, that packet, end of stream), and two owned packets with one read interrupted at every offset of the first (an error, or exactly those packets); plus, through the real sequences, every form of the terminal's acknowledgement (empty / with a reply-like data block / extended length) in front of each reply of the reply set (trace oracle of C05). Oracle from an independent enum -> control field table: foreign pair => Err; owned pair => identical to the variant's packet type decoding the same bytes. non-trivial = pair owned by the enum or sharing class or instr with an owned pair; distinct by (enum, pair, body) by construction",
         &["registry::enum_table() (DESIGN.md Appendix B) is the independent statement of each command's reply set"],
         true,
     )
